@@ -702,3 +702,20 @@ def s_collect(ip, st, fr, name, args, c, site):
     if ('len', t) != n:
         st.assume(T.mk_cmp('eq', ('len', t), n))
     return one(X.Sym(t, rty))
+
+
+@S("re:^<std::slice::Iter<'a, T> as std::iter::Iterator>::fold$", 'std::iter::Iterator::fold')
+def s_fold(ip, st, fr, name, args, c, site):
+    it, init, clo = args
+    if not isinstance(it, X.Iter) or it.kind not in ((), ('copied',)):
+        raise X.Unanalysable('fold over %r' % (getattr(it, 'kind', it),), site)
+    dom = iter_domain(ip, st, it)
+    accv = st.fresh_var('acc')
+    aty = c['arg_tys'][1] if len(c.get('arg_tys', [])) > 1 else None
+    acc = ip.sym_value(st, accv, aty)
+    bound = st.fresh_var('k', 'usize')
+    elem = iter_elem(ip, st, it, bound)
+    body = ip.eval_closure(st, clo, [acc, elem], site)
+    t = ('fold', dom, ip.to_term(st, init), accv, bound, body)
+    rty = c['generics'][-2] if False else aty
+    return one(ip.sym_value(st, t, aty))
